@@ -1,6 +1,8 @@
 package rules
 
 import (
+	"dtnverif/core"
+
 	"fmt"
 	"go/constant"
 	"go/token"
@@ -231,6 +233,41 @@ func (a poly) rangeOnUnitBox() (lo, hi float64, ok bool, why string) {
 type symbolizer struct {
 	sym   func(v ssa.Value) (string, bool) // names a leaf
 	leafs map[string]ssa.Value
+	subst []map[ssa.Value]ssa.Value // parameter -> argument while a pure helper is inlined
+}
+
+// pureHelperResult: c calls a function of the repository whose body is straight-line code returning one value
+// (e.g. an extracted `reinforce(p, q float64) float64`); its result expression and the parameter binding.
+func pureHelperResult(c *ssa.Call) (ssa.Value, map[ssa.Value]ssa.Value, bool) {
+	f := c.Common().StaticCallee()
+	if f == nil || !core.IsRepo(f) || len(f.Blocks) != 1 || c.Common().IsInvoke() {
+		return nil, nil, false
+	}
+	ret, ok := f.Blocks[0].Instrs[len(f.Blocks[0].Instrs)-1].(*ssa.Return)
+	if !ok || len(ret.Results) != 1 || len(f.Params) != len(c.Common().Args) {
+		return nil, nil, false
+	}
+	for _, in := range f.Blocks[0].Instrs {
+		switch in.(type) {
+		case *ssa.BinOp, *ssa.UnOp, *ssa.Convert, *ssa.ChangeType, *ssa.Return, *ssa.DebugRef:
+		default:
+			return nil, nil, false
+		}
+	}
+	m := map[ssa.Value]ssa.Value{}
+	for i, par := range f.Params {
+		m[par] = c.Common().Args[i]
+	}
+	return ret.Results[0], m, true
+}
+
+func (s *symbolizer) resolveParam(v ssa.Value) (ssa.Value, bool) {
+	for i := len(s.subst) - 1; i >= 0; i-- {
+		if a, ok := s.subst[i][v]; ok {
+			return a, true
+		}
+	}
+	return nil, false
 }
 
 func (s *symbolizer) toPoly(v ssa.Value, depth int) (poly, error) {
@@ -281,6 +318,131 @@ func (s *symbolizer) toPoly(v ssa.Value, depth int) (poly, error) {
 		return s.toPoly(x.X, depth+1)
 	case *ssa.ChangeType:
 		return s.toPoly(x.X, depth+1)
+	case *ssa.Parameter:
+		if a, ok := s.resolveParam(x); ok {
+			// the argument belongs to the caller's frame
+			saved := s.subst
+			s.subst = s.subst[:len(s.subst)-1]
+			pl, err := s.toPoly(a, depth+1)
+			s.subst = saved
+			return pl, err
+		}
+	case *ssa.Call:
+		if res, m, ok := pureHelperResult(x); ok {
+			s.subst = append(s.subst, m)
+			pl, err := s.toPoly(res, depth+1)
+			s.subst = s.subst[:len(s.subst)-1]
+			return pl, err
+		}
 	}
 	return nil, fmt.Errorf("value %s (%T) is outside the polynomial fragment", v.Name(), v)
+}
+
+// floatForm decides, on the SSA expression itself, whether a float64 update
+// is written in a form whose IEEE-754 evaluation is monotone in the required
+// direction for operands in [0,1] (every operation rounds monotonically):
+//   raising:  old + t   with t built from products of values in [0,1] and (1 - x), x in [0,1]  (t >= 0, so fl(old+t) >= old)
+//   lowering: old * f   with f in [0,1]                                                         (fl(old*f) <= old)
+// An algebraically equal form such as 1-(1-old)*(1-q) is NOT monotone in
+// floating point: 1-(1-old) already differs from old below 0.5.
+type floatForm struct {
+	s     *symbolizer
+	isOld func(ssa.Value) bool
+}
+
+func (ff *floatForm) unwrap(v ssa.Value) (ssa.Value, func()) {
+	noop := func() {}
+	for i := 0; i < 8; i++ {
+		switch x := v.(type) {
+		case *ssa.Convert:
+			v = x.X
+			continue
+		case *ssa.ChangeType:
+			v = x.X
+			continue
+		case *ssa.Parameter:
+			if a, ok := ff.s.resolveParam(x); ok {
+				saved := ff.s.subst
+				ff.s.subst = ff.s.subst[:len(ff.s.subst)-1]
+				inner, undo := ff.unwrap(a)
+				return inner, func() { undo(); ff.s.subst = saved }
+			}
+		case *ssa.Call:
+			if res, m, ok := pureHelperResult(x); ok {
+				ff.s.subst = append(ff.s.subst, m)
+				inner, undo := ff.unwrap(res)
+				return inner, func() { undo(); ff.s.subst = ff.s.subst[:len(ff.s.subst)-1] }
+			}
+		}
+		break
+	}
+	return v, noop
+}
+
+// unit: v evaluates to a value in [0,1] given that leaves are in [0,1].
+func (ff *floatForm) unit(v ssa.Value, depth int) bool {
+	if depth > 12 {
+		return false
+	}
+	v, undo := ff.unwrap(v)
+	defer undo()
+	if ff.isOld(v) {
+		return true
+	}
+	if _, ok := ff.s.sym(v); ok {
+		return true
+	}
+	switch x := v.(type) {
+	case *ssa.Const:
+		if x.Value == nil {
+			return false
+		}
+		f, _ := constant.Float64Val(constant.ToFloat(x.Value))
+		return f >= 0 && f <= 1
+	case *ssa.BinOp:
+		switch x.Op {
+		case token.MUL:
+			return ff.unit(x.X, depth+1) && ff.unit(x.Y, depth+1)
+		case token.SUB:
+			// 1 - u with u in [0,1]
+			if c, ok := x.X.(*ssa.Const); ok && c.Value != nil {
+				if f, _ := constant.Float64Val(constant.ToFloat(c.Value)); f == 1 {
+					return ff.unit(x.Y, depth+1)
+				}
+			}
+		}
+	}
+	return false
+}
+
+func (ff *floatForm) raising(v ssa.Value) bool {
+	v, undo := ff.unwrap(v)
+	defer undo()
+	b, ok := v.(*ssa.BinOp)
+	if !ok || b.Op != token.ADD {
+		return false
+	}
+	x, ux := ff.unwrap(b.X)
+	okX := ff.isOld(x)
+	ux()
+	y, uy := ff.unwrap(b.Y)
+	okY := ff.isOld(y)
+	uy()
+	return (okX && ff.unit(b.Y, 0)) || (okY && ff.unit(b.X, 0))
+}
+
+func (ff *floatForm) lowering(v ssa.Value) bool {
+	v, undo := ff.unwrap(v)
+	defer undo()
+	b, ok := v.(*ssa.BinOp)
+	if !ok || b.Op != token.MUL {
+		return false
+	}
+	x, ux := ff.unwrap(b.X)
+	okX := ff.isOld(x)
+	ux()
+	y, uy := ff.unwrap(b.Y)
+	okY := ff.isOld(y)
+	uy()
+	return (okX && ff.unit(b.Y, 0)) || (okY && ff.unit(b.X, 0))
 }
